@@ -326,6 +326,10 @@ def main(argv):
             inp = b"".join(pyb64.b64encode(d) + b"\n" for d in docs)
             st, so, se = run_limited([tool, idc], stdin=inp, timeout=60)
             check_stream("at-once", docs, st, so, se, "%d documents (see mkdocs in checks/C08.py) | b64filter child_id.py" % n)
+        # documents around the 8192-byte buffer of the stream towards the child (larger writes bypass the buffer)
+        edge = [b"q" * 8191, b"", b"q" * 8192, b"x\n", b"q" * 8191 + b"\n", b"q" * 8192 + b"\n", b"q" * 8193, b"q" * 4095 + b"\n" + b"r" * 4096, b"last"]
+        st, so, se = run_limited([tool, idc], stdin=b"".join(pyb64.b64encode(d) + b"\n" for d in edge), timeout=60)
+        check_stream("buffer-edge", edge, st, so, se, "documents of 8191/8192/8193 bytes with and without final newline | b64filter child_id.py")
         # one very large document (bigger than every stream buffer and pipe) between small ones
         big = b"".join(b"row %d of the big document %s\n" % (i, b"z" * (i % 97)) for i in range(6000))
         docs = mkdocs(40, 1) + [big, b"", big[:-1]] + mkdocs(40, 2)
